@@ -12,6 +12,8 @@ statements about SOLVER ANSWERS on the compiled model.
 -/
 import Rooc.Proofs.ComposeContract
 import Rooc.Proofs.LinBridgeCounter
+import Rooc.Proofs.LinBridgeLogic
+import Rooc.Proofs.LinD11
 import Rooc.Proofs.RefLemmas
 
 set_option linter.unusedSectionVars false
@@ -35,11 +37,11 @@ structure SrcOptimal (m : Model (Ext K)) (ρ : String → K) (v : K) : Prop wher
 /-! ### what C01 + C02 establish about a compiled model -/
 
 /-- the conclusion of C01 (`feasible_iff`) and C02 (`objective`) for a source model `m` and a linear model `lm`,
-plus the two facts the statements are read with: the direction is kept and the source objective has a value
-everywhere (part of `FragModel`). -/
+plus the two facts the statements are read with: the direction is kept and the source objective has a value at every
+assignment that satisfies the source (part of `LogicModel` / `FragModel`). -/
 structure CompilesTo (m : Model (Ext K)) (lm : LinModel (Ext K)) : Prop where
   optType : lm.optType = m.optType
-  objDefined : ∀ ρ : String → K, ∃ v, eval ρ m.objective = some v
+  objDefined : ∀ ρ : String → K, srcFeasible m ρ = true → ∃ v, eval ρ m.objective = some v
   feasible_iff : ∀ ρ : String → K, srcFeasible m ρ = true ↔
     ∃ ρ' : String → K, (∀ x, inScope m.domain x → ρ' x = ρ x) ∧ linFeasible lm ρ' = true
   objective : ∀ ρ : String → K, srcFeasible m ρ = true → ∀ v, eval ρ m.objective = some v →
@@ -55,14 +57,30 @@ theorem compile_optType {α : Type} [Arith α] {m : Model α} {tol : α} {maxSte
   obtain ⟨objExp, s1, obj, s2, s3, _, _, _, rfl⟩ := (linearizeWith_ok_iff _ _ _ _).mp hlin
   rfl
 
-/-- **C01 + C02 for the whole pipeline give `CompilesTo`** (hypotheses: those of `c01_compile_partial`). -/
+/-- a model of the piecewise-linear fragment has no bare assertion, so the shape condition on assertions is void. -/
+theorem assertShape_of_fragModel {m : Model (Ext K)} {d : List (DomVar (Ext K))} (hm : FragModel true m d) :
+    AssertShape m := by
+  intro c hc ha
+  rw [(hm.cons c hc).notAssert] at ha
+  cases ha
+
+/-- **C01 + C02 for the whole pipeline give `CompilesTo`** for EVERY model that compiles under the semantic contract
+`LogicModel` (hypotheses: those of `c01_compile_logic_partial` / `c02_compile_logic_partial`). -/
+theorem compilesTo_of_compile_logic {m : Model (Ext K)} {t : K} (ht : 0 ≤ t) {maxSteps : Nat} {lm : LinModel (Ext K)}
+    (h : Compile.linearize m (.fin t) maxSteps = .ok lm)
+    (hm : LogicModel m m.domain) (hsh : AssertShape m) (hok : DeclOK m.domain)
+    (ht1 : t < 1 ∨ NoIntegerVars m.domain) :
+    CompilesTo m lm :=
+  ⟨compile_optType h, fun ρ hs => hm.obj.defd ρ ((srcFeasible_iff m ρ).mp hs).2,
+    compile_feasible_iff_logic ht h hm hsh hok ht1, compile_objective_logic ht h hm hsh hok ht1⟩
+
+/-- the piecewise-linear fragment as a special case (hypotheses: those of `c01_compile_partial`). -/
 theorem compilesTo_of_compile {m : Model (Ext K)} {t : K} (ht : 0 ≤ t) {maxSteps : Nat} {lm : LinModel (Ext K)}
     (h : Compile.linearize m (.fin t) maxSteps = .ok lm)
     (hm : FragModel true m m.domain) (hok : DeclOK m.domain)
     (ht1 : t < 1 ∨ NoIntegerVars m.domain) :
     CompilesTo m lm :=
-  ⟨compile_optType h, hm.objDefined, compile_feasible_iff ht h hm hok ht1,
-    compile_objective ht h hm hok ht1⟩
+  compilesTo_of_compile_logic ht h (LogicModel.ofFragModel hm) (assertShape_of_fragModel hm) hok ht1
 
 /-! ### order facts about `better` / `rel (objReq m)` -/
 
@@ -123,7 +141,7 @@ theorem lin_value (hc : CompilesTo m lm) {ρ' : String → K} (hf : linFeasible 
 theorem optimal_transfer (hc : CompilesTo m lm) {ρ' : String → K} (ho : LinOptimal lm ρ') :
     ∃ v, SrcOptimal m ρ' v ∧ linObjective lm ρ' = some v := by
   have hs := src_of_lin hc ho.feasible
-  obtain ⟨v, hv⟩ := hc.objDefined ρ'
+  obtain ⟨v, hv⟩ := hc.objDefined ρ' hs
   obtain ⟨hall, ρ'', _, hf'', ho''⟩ := hc.objective ρ' hs v hv
   obtain ⟨w, hw, hrel⟩ := hall ρ' (fun _ _ => rfl) ho.feasible
   have hb := ho.best ρ'' hf'' w v hw ho''
@@ -144,7 +162,7 @@ theorem optimal_complete (hc : CompilesTo m lm) {ρ : String → K} {v : K} (hop
   refine ⟨ρ', hag, ⟨hf, ?_⟩, ho⟩
   intro ρ'' hf'' w w'' hw hw''
   rw [ho] at hw; cases hw
-  obtain ⟨u, hu⟩ := hc.objDefined ρ''
+  obtain ⟨u, hu⟩ := hc.objDefined ρ'' (src_of_lin hc hf'')
   obtain ⟨w₂, hw₂, hrel⟩ := lin_value hc hf'' hu
   rw [hw''] at hw₂; cases hw₂
   rw [hc.optType]
@@ -171,7 +189,7 @@ theorem unbounded_iff (hc : CompilesTo m lm) : LinUnbounded lm ↔ SrcUnbounded 
   constructor
   · intro h M
     obtain ⟨ρ', hf, w, hw, hb⟩ := h M
-    obtain ⟨u, hu⟩ := hc.objDefined ρ'
+    obtain ⟨u, hu⟩ := hc.objDefined ρ' (src_of_lin hc hf)
     obtain ⟨w₂, hw₂, hrel⟩ := lin_value hc hf hu
     rw [hw] at hw₂; cases hw₂
     rw [hc.optType] at hb
@@ -209,8 +227,8 @@ theorem vars_eq_varsOf {α : Type} (e : Exp α) : Exp.vars e = varsOf e := by
   | iff a b iha ihb => simp [Exp.vars, varsOf, iha, ihb]
   | bin op a b iha ihb => simp [Exp.vars, varsOf, iha, ihb]
 
-/-- a model of the fragment mentions only declared variables with a usage mark. -/
-theorem closed_of_fragModel {ext : Bool} {m : Model (Ext K)} (hm : FragModel ext m m.domain) : Closed m = true := by
+/-- a model under the contract `LogicModel` mentions only declared variables with a usage mark. -/
+theorem closed_of_logicModel {m : Model (Ext K)} (hm : LogicModel m m.domain) : Closed m = true := by
   have key : ∀ x, inScope m.domain x → (usedNames m.domain).contains x = true := by
     rintro x ⟨dv, hdv, hn, hu⟩
     rw [List.contains_iff_mem, mem_usedNames]
@@ -218,11 +236,19 @@ theorem closed_of_fragModel {ext : Bool} {m : Model (Ext K)} (hm : FragModel ext
   simp only [Closed, List.all_eq_true, modelVars, List.mem_append, List.mem_flatMap]
   rintro s (hs | ⟨c, hc, hs⟩)
   · rw [vars_eq_varsOf] at hs
-    exact key s (hm.obj.2 s hs)
+    exact key s (hm.obj.vars s hs)
   · have hsrc := hm.cons c hc
-    simp only [consVars, hsrc.notAssert, Bool.false_eq_true, if_false, List.mem_append, vars_eq_varsOf] at hs
-    rcases hs with hs | hs
-    · exact key s (hsrc.lhs.2 s hs)
-    · exact key s (hsrc.rhs.2 s hs)
+    simp only [consVars] at hs
+    split at hs
+    · rw [vars_eq_varsOf] at hs
+      exact key s (hsrc.lhs.vars s hs)
+    · simp only [List.mem_append, vars_eq_varsOf] at hs
+      rcases hs with hs | hs
+      · exact key s (hsrc.lhs.vars s hs)
+      · exact key s (hsrc.rhs.vars s hs)
+
+/-- a model of the fragment mentions only declared variables with a usage mark. -/
+theorem closed_of_fragModel {m : Model (Ext K)} (hm : FragModel true m m.domain) : Closed m = true :=
+  closed_of_logicModel (LogicModel.ofFragModel hm)
 
 end Rooc.Compose
